@@ -816,6 +816,8 @@ def z11_rtc(F, R, M, roles):
                     sv = leap[0][2][0][1].rsplit('::', 1)[1] if leap[0][2] and leap[0][2][0][0] == 'agg' else '?'
                     if not scond or scond[-1][1][1][0] != RTC_SMEAR.get(sv):
                         bad = 'smearing code %s is reported as %s' % (scond[-1][1][1][0] if scond else '?', sv)
+                    if kind and kind[0][1].rsplit('::', 1)[1] != 'UtcSmeared':
+                        bad = 'a smearing variant is reported for clock type %s (only the smeared-UTC type has one)' % kind[0][1].rsplit('::', 1)[1]
                     # decoded only on the "is a smeared clock" edge of the comparison of the clock type
                     for c in p.conds:
                         d = c[0]
@@ -823,6 +825,8 @@ def z11_rtc(F, R, M, roles):
                             truth = (c[1][0] == 'notin' and 0 in c[1][1]) or (c[1][0] == 'in' and 0 not in c[1][1])
                             if (d[1] == 'Eq' and not truth) or (d[1] == 'Ne' and truth):
                                 bad = 'a smearing variant is reported on the edge where the clock type is NOT the smeared-UTC type'
+                if kind and kind[0][1].rsplit('::', 1)[1] == 'UtcSmeared' and scond and scond[-1][1][1][0] in RTC_SMEAR.values() and not (leap and leap[0][1].endswith('::Some')):
+                    bad = 'the smearing variant of a smeared-UTC clock is not reported'
             elif okv[0] != 'agg':
                 # scalar results (number of clocks, clock reading) come from the response
                 if not derives_from(okv, lambda x: x[0] == 'call' and x[2] == rid):
